@@ -473,6 +473,7 @@ class Ctx:
         d, asm, _ = self.stage("w1")
         w = self.world
         state = rng.choice(["fai_only", "agp_only", "stale_both", "fresh_fai_stale_agp", "stale_fai_fresh_agp", "stale_both_tie"])
+        state = self.case.get("stale_state") or state
         with w.suspend():
             orig = Path(asm).read_bytes()
             fresh = {}
@@ -954,6 +955,9 @@ CANNED = [
     # the same haplotype spelt two ways, many "No overlaps found" warnings, repeated in one process
     {"force": ("double_spelt", "junk"), "haps": True, "fmt": "agp", "dims": ["hash", "history"]},
     {"force": ("junk",), "haps": False, "fmt": "tpf", "dims": ["history", "stale"]},
+    # one cache file fresh, the other left over from an older FASTA with the same names
+    {"force": (), "haps": False, "fmt": "agp", "dims": ["stale", "warm"], "stale_state": "fresh_fai_stale_agp"},
+    {"force": (), "haps": False, "fmt": "fa", "dims": ["stale", "buffer"], "stale_state": "stale_fai_fresh_agp"},
 ]
 
 
@@ -969,6 +973,8 @@ def canned_case(rng, tier, spec):
     wl["fmt"] = spec["fmt"]
     case["w1"] = wl
     case["dims"] = sorted(spec["dims"])
+    if spec.get("stale_state"):
+        case["stale_state"] = spec["stale_state"]
     return case
 
 
